@@ -262,6 +262,70 @@ Proof. exact update_scheme_perm. Qed.
 Print Assumptions C01_gen_ie_any_enumeration.
 Print Assumptions C01_gen_update_order_insensitive.
 
+(* ======================================================================================================================
+   HISTORIES ON ONE OBJECT (Model/CombiSchemeObj.v: re-initialisation, init_full_grid, update requests, scheme requests,
+   queries; R_exc = the call raises).  The correspondence drives exactly this machine (Entry sub 2).
+   ====================================================================================================================== *)
+From SG Require Import Model.CombiSchemeObj Proofs.SchemeObj.
+
+(* a (re-)initialisation makes all later results and states those of a NEW object: nothing of the earlier history
+   (sets, levels, anything remembered from earlier scheme requests) can influence them *)
+Theorem C01_reinit_is_fresh : forall o lmax lmin ops, init_scheme (o_dim o) lmax lmin <> None ->
+  run o (OpInit lmax lmin :: ops) = run (fresh_obj (o_dim o)) (OpInit lmax lmin :: ops).
+Proof. exact reinit_is_fresh. Qed.
+Theorem C01_reinit_full_is_fresh : forall o lmax lmin ops, init_full_scheme (o_dim o) lmax lmin <> None ->
+  run o (OpFull lmax lmin :: ops) = run (fresh_obj (o_dim o)) (OpFull lmax lmin :: ops).
+Proof. exact reinit_full_is_fresh. Qed.
+Theorem C01_failed_init_keeps_state : forall o lmax lmin, init_scheme (o_dim o) lmax lmin = None ->
+  step o (OpInit lmax lmin) = (R_exc, o).
+Proof. exact failed_init_keeps_state. Qed.
+(* every history of requests without init_full_grid on one object of dimension >= 1 keeps the invariant ... *)
+Theorem C01_obj_history_inv : forall n ops o, o_dim o = S n -> good o ->
+  forallb (fun p => negb (is_full p)) ops = true -> good (final o ops) /\ o_dim (final o ops) = S n.
+Proof. exact obj_history_inv. Qed.
+(* ... and a scheme request after it answers the inclusion-exclusion scheme of the CURRENT index set (closed form on a
+   never initialised object) *)
+Theorem C01_obj_get_valid : forall n ops a b, forallb (fun p => negb (is_full p)) ops = true ->
+  let o := final (fresh_obj (S n)) ops in
+  match o_st o with
+  | Some s =>
+      fst (step o (OpGet a b)) = R_coeffs (combi_scheme_adaptive s) /\ Inv s /\
+      (forall l, length l = s_dim s -> Forall (fun x => s_lmin s <= x) l ->
+         dominating_sum (combi_scheme_adaptive s) l = if mem l (index_set s) then 1 else 0) /\
+      (forall k c, In (k, c) (combi_scheme_adaptive s) -> In k (index_set s) /\ c <> 0) /\
+      sumZ (map snd (combi_scheme_adaptive s)) = 1
+  | None => fst (step o (OpGet a b)) = R_coeffs (combi_scheme_standard (S n) a b)
+  end.
+Proof. exact obj_get_valid. Qed.
+(* the same for the GENERATED code: init_adaptive_combi_scheme / init_full_grid on ANY object state depend on the dimension
+   and the arguments only (an attribute that they do not reset would make these equalities fail) *)
+Theorem C01_gen_reinit_is_fresh : forall o lmax lmin, 1 <= f_dim o ->
+  CombiScheme_init_adaptive_combi_scheme o lmax lmin =
+    match init_scheme (Z.to_nat (f_dim o)) lmax lmin with Some s => Some (tt, conc s) | None => None end.
+Proof. exact gen_reinit_is_fresh. Qed.
+Theorem C01_gen_reinit_independent : forall o o' lmax lmin, 1 <= f_dim o -> f_dim o = f_dim o' ->
+  CombiScheme_init_adaptive_combi_scheme o lmax lmin = CombiScheme_init_adaptive_combi_scheme o' lmax lmin.
+Proof. exact gen_reinit_independent. Qed.
+Theorem C01_gen_eq_init_full_grid : forall o lmax lmin, 1 <= f_dim o ->
+  CombiScheme_init_full_grid o lmax lmin =
+    match init_full_scheme (Z.to_nat (f_dim o)) lmax lmin with Some s => Some (tt, conc s) | None => None end.
+Proof. exact gen_init_full_grid. Qed.
+Print Assumptions C01_reinit_is_fresh.
+Print Assumptions C01_obj_history_inv.
+Print Assumptions C01_obj_get_valid.
+Print Assumptions C01_gen_reinit_is_fresh.
+Print Assumptions C01_gen_eq_init_full_grid.
+
+(* non-vacuity: one object, initialised, refined, re-initialised with an index set of the SAME size but other content *)
+Example C01_reinit_nonvacuous :
+  let ops := [OpInit 3 1; OpGet 1 2; OpInit 2 0; OpGet 1 2] in
+  match map fst (run (fresh_obj 2) ops) with
+  | [R_unit; R_coeffs c1; R_unit; R_coeffs c2] =>
+      length c1 = 5%nat /\ length c2 = 5%nat /\ In ([1;3], 1) c1 /\ In ([0;2], 1) c2 /\ ~ In ([1;3], 1) c2
+  | _ => False
+  end.
+Proof. vm_compute. repeat split; try tauto. intros H. repeat (destruct H as [H|H]; [discriminate|]). exact H. Qed.
+
 (* non-vacuity on the generated code itself: d=3, lmin=1, lmax=3, three refinements, evaluated by the generated functions *)
 Example C01_gen_nonvacuous :
   exists o1 o2 cs, gen_fresh 3 3 1 = Some o1 /\ gen_updates o1 [[1;1;3]; [1;2;2]; [1;1;4]] = Some o2 /\
